@@ -172,9 +172,18 @@ theorem editBridger_core (s : State) (o b : Nat) :
   all_goals simp [Core]
 
 theorem unbond_core (s : State) (o : Nat) (u : Bool) (bal : Nat) (d : Bool) : Core (unbondStep s o u bal d).1 = Core s := by
-  unfold unbondStep
+  unfold unbondStep unbondApply
   repeat' split
   all_goals simp [Core]
+
+theorem unbond_cases (s : State) (o : Nat) (u : Bool) (bal : Nat) (d : Bool) :
+    (unbondStep s o u bal d).1 = s ∨
+    ∃ orc, s.oracles.get o = some orc ∧ orc.online = false ∧ (unbondStep s o u bal d).1 = unbondApply s o orc := by
+  unfold unbondStep
+  repeat' split
+  all_goals first | exact Or.inl rfl | skip
+  rename_i orc hg hon _ _ _ _
+  exact Or.inr ⟨orc, hg, by simpa using hon, rfl⟩
 
 theorem gov_core (s : State) (l : List Nat) (d : Bool) :
     Core (govStep s l d).1 = Core s ∧ (govStep s l d).1.lastNonce = s.lastNonce := by
@@ -411,9 +420,9 @@ theorem totalOk_step (s : State) (op : Op) (hT : TotalOk s) : TotalOk (step s op
     exact Nat.le_trans (onlinePower_set_le s.oracles o orc _ hg (by simp [contrib, Oracle.power])) hT
   | unbond o u bal d =>
     simp only [step]
-    unfold unbondStep
-    repeat' split
-    all_goals first | exact hT | exact Nat.le_trans (onlinePower_filter_le s.oracles _) hT
+    rcases unbond_cases s o u bal d with h | ⟨orc, _, _, h⟩
+    · rw [h]; exact hT
+    · rw [h]; exact Nat.le_trans (onlinePower_filter_le s.oracles _) hT
   | gov l d =>
     simp only [step]
     unfold govStep
@@ -652,13 +661,12 @@ theorem binv_step (s : State) (op : Op) (hB : BInv s) : BInv (step s op).1 := by
         intro hc; subst hc; rw [hgo] at ho; cases ho; exact hold hbr
       exact ⟨orc', by rw [get_set_ne _ _ _ _ hne]; exact ho, hbr⟩
   | unbond o u bal d =>
-    simp only [step]; unfold unbondStep
-    repeat' split
-    all_goals first | exact hB | skip
-    all_goals
-      rename_i orc hgo _ _ _ _ _
+    simp only [step]
+    rcases unbond_cases s o u bal d with h | ⟨orc, hgo, _, h⟩
+    · rw [h]; exact hB
+    · rw [h]
       intro b' a' hg
-      simp only [] at hg ⊢
+      simp only [unbondApply] at hg ⊢
       have hold : orc.bridger ≠ b' := by
         intro hc; rw [hc, get_del_self] at hg; cases hg
       rw [get_del_ne _ _ _ hold] at hg
@@ -864,7 +872,7 @@ structure VInv (s : State) : Prop where
 
 theorem unbond_lastNonce (s : State) (o : Nat) (u : Bool) (bal : Nat) (d : Bool) (hk : unbondDeletesLastNonce = false) :
     (unbondStep s o u bal d).1.lastNonce = s.lastNonce := by
-  unfold unbondStep
+  unfold unbondStep unbondApply
   repeat' split
   all_goals simp_all
 
@@ -982,33 +990,32 @@ theorem vinv_step (s : State) (op : Op) (hop : opOk s op = true) (hV : VInv s) :
     exact NoNew_set s.oracles o orc _ hg
   | unbond o u bal d =>
     simp only [step]
-    have hat := core_atts (unbond_core s o u bal d)
-    unfold unbondStep at hat ⊢
-    repeat' split
-    all_goals first | exact hV | skip
-    · -- the key is deleted and the oracle retired
-      refine ⟨?_, hV.v2, ?_⟩
-      · intro a ha o' ho'
-        rcases hV.v1 a ha o' ho' with ⟨v, hv, hle⟩ | hr
-        · by_cases h : o = o'
-          · subst h; exact Or.inr List.mem_cons_self
-          · exact Or.inl ⟨v, by simp only []; rw [get_del_ne _ _ _ h]; exact hv, hle⟩
-        · exact Or.inr (List.mem_cons_of_mem _ hr)
-      · intro r hr
-        simp only [] at hr ⊢
-        by_cases h : o = r
-        · subst h; exact get_del_self _ _
-        · rw [get_del_ne _ _ _ h]
+    rcases unbond_cases s o u bal d with h | ⟨orc, _, _, h⟩
+    · rw [h]; exact hV
+    · rw [h]
+      have hr1 : ∀ r ∈ s.retired, (s.oracles.del o).get r = none := by
+        intro r hr
+        by_cases h' : o = r
+        · subst h'; exact get_del_self _ _
+        · rw [get_del_ne _ _ _ h']; exact hV.r1 r hr
+      unfold unbondApply
+      by_cases hk : unbondDeletesLastNonce = true
+      · -- the key is deleted and the oracle retired
+        simp only [hk, if_true]
+        refine ⟨?_, hV.v2, ?_⟩
+        · intro a ha o' ho'
+          rcases hV.v1 a ha o' ho' with ⟨v, hv, hle⟩ | hr
+          · by_cases h' : o = o'
+            · subst h'; exact Or.inr List.mem_cons_self
+            · exact Or.inl ⟨v, by simp only []; rw [get_del_ne _ _ _ h']; exact hv, hle⟩
+          · exact Or.inr (List.mem_cons_of_mem _ hr)
+        · intro r hr
           rcases List.mem_cons.mp hr with h1 | h1
-          · exact absurd h1.symm h
-          · exact hV.r1 r h1
-    · -- the key is kept
-      refine ⟨hV.v1, hV.v2, ?_⟩
-      intro r hr
-      simp only [] at hr ⊢
-      by_cases h : o = r
-      · subst h; exact get_del_self _ _
-      · rw [get_del_ne _ _ _ h]; exact hV.r1 r hr
+          · subst h1; exact get_del_self _ _
+          · exact hr1 r h1
+      · -- the key is kept
+        simp only [hk]
+        exact ⟨hV.v1, hV.v2, hr1⟩
   | gov l d =>
     simp only [step]
     refine vinv_frame (core_atts (gov_core s l d).1) (gov_core s l d).2 (gov_retired s l d) ?_ hV
@@ -1057,7 +1064,7 @@ theorem retired_step (s : State) (op : Op) (hk : unbondDeletesLastNonce = false)
   | addDelegate o a d => simp only [step]; rw [addDelegate_retired]; exact h
   | editBridger o b => simp only [step]; rw [editBridger_retired]; exact h
   | unbond o u bal d =>
-    simp only [step]; unfold unbondStep
+    simp only [step]; unfold unbondStep unbondApply
     repeat' split
     all_goals simp_all
   | gov l d => simp only [step]; rw [gov_retired]; exact h
